@@ -278,4 +278,4 @@ def publisher_trace(cfg, wq, raw_batches, groups, streams, IncrementalPublisher)
     for s in streams:
         parents[s] = ""
     return {"initial": enc_payload(initial, True), "subsequent": [enc_payload(p) for p in payloads[1:]],
-            "parents": parents, "ref": wire.enc_value(ref), "refclean": not any_fail, "complete": ended, "stalled": False}
+            "parents": parents, "ref": wire.enc_value(ref), "refnf": {"t": "missing"}, "refclean": not any_fail, "complete": ended, "stalled": False}
